@@ -127,7 +127,11 @@ class Group:
         cmd = [sys.executable, os.path.join(ENGINE, 'll2c.py'), opt, os.path.join(s.dir, 'g.c'), '--entry', ','.join(entries), '--models', symf, '--report', os.path.join(s.dir, 'report.json')]
         if s.g.get('cand'): cmd += ['--cand', s.g['cand']]
         if s.g.get('types'): cmd += ['--types', ','.join(s.g['types'])]
-        r = run(cmd)
+        # block layout of the generated C: 'llvm' (LLVM's own order; the layout the older harnesses were tuned with) or 'wto' (weak topological order:
+        # code after a loop comes after the loop body, so loop exits merge in cbmc - decisive where real code has loops with symbolic trip count followed
+        # by heavy code, but merging can also cost more memory than duplicating). Per group (`block_order`), an explicit LL2C_ORDER in the environment wins.
+        env = dict(os.environ); env['LL2C_ORDER'] = os.environ.get('LL2C_ORDER') or s.g.get('block_order', 'llvm'); s.block_order = env['LL2C_ORDER']
+        r = run(cmd, env=env)
         if r.returncode != 0: raise BuildError('ll2c failed:\n' + r.stderr[-4000:] + r.stdout[-2000:])
         s.ll2c_msg = r.stderr.strip()
         s.vpl_funcs = set()
